@@ -450,10 +450,8 @@ func (r *RTPReceiver) collectStats(collector *statsReportCollector, statsGetter 
 		collector.Collecting()
 
 		inboundID := fmt.Sprintf("inbound-rtp-%d", uint32(remoteTrack.SSRC()))
-		codecID := ""
-		if remoteTrack.codec.statsID != "" {
-			codecID = remoteTrack.codec.statsID
-		}
+		// the track's codec is updated by its read loop when the payload type changes
+		codecID := remoteTrack.Codec().statsID
 
 		inboundStats := InboundRTPStreamStats{
 			Rid:         remoteTrack.RID(),
